@@ -8,7 +8,7 @@ namespace IpcHub.Pull
 open IpcHub.PullSpec
 
 /-- the facts of the corrected source -/
-def good : Facts := ⟨true, true, true, true⟩
+def good : Facts := ⟨true, true, true, true, true⟩
 
 /-- a request as the camera (the harness) classifies it -/
 def seen (q : Req) : SeenReq :=
@@ -520,7 +520,10 @@ theorem isPrefix_refl (a : List Method) : isPrefix a a = true := by
   | cons x a ih => simp [isPrefix, ih]
 
 theorem needed_length (cfg : Cfg) : (needed cfg).length = 3 + tracksOf cfg.sdp := by
-  simp [needed]; omega
+  cases h : cfg.sdp with
+  | tracks v a b => cases v <;> cases a <;> simp [needed, setupsOf, tracksOf, h]
+  | bad => simp [needed, setupsOf, tracksOf, h]
+  | noFormat => simp [needed, setupsOf, tracksOf, h]
 
 /-- the SDP cannot be used for a SETUP -/
 def unusable : Sdp → Bool
@@ -533,6 +536,14 @@ def Reason (f : Facts) (cfg : Cfg) (script : List Resp) (reqs : List Req) (done 
   (reqs ≠ [] ∧ isSuccess (respAt script (reqs.length - 1)) = false) ∨
   f.setupUrlSafe = false
 
+/-- effects of a failed Open that reached the camera: dial and close — or, when the stream is built
+    before PLAY is sent, dial, stream, close (the stream is dropped unclosed) -/
+def EffFail (f : Facts) (e : List Effect) : Prop :=
+  e = [.dial, .closeConn] ∨ (f.streamAfterPlay = false ∧ e = [.dial, .newStream, .closeConn])
+
+def EffHang (f : Facts) (e : List Effect) : Prop :=
+  e = [.dial] ∨ (f.streamAfterPlay = false ∧ e = [.dial, .newStream])
+
 /-- everything the theorems below need to know about a result of `openPull` -/
 def OpenInv (f : Facts) (cfg : Cfg) (script : List Resp) (r : OpenResult) : Prop :=
   r.rest = script.drop r.reqs.length ∧ r.reqs.length ≤ 3 * (3 + tracksOf cfg.sdp) ∧
@@ -541,8 +552,8 @@ def OpenInv (f : Facts) (cfg : Cfg) (script : List Resp) (r : OpenResult) : Prop
     | .stream => done = needed cfg ∧ r.effects = [.dial, .newStream] ∧ cfg.listens = true
     | .notFound =>
       (cfg.listens = false ∧ r.effects = [] ∧ r.reqs = []) ∨
-      (cfg.listens = true ∧ r.effects = [.dial, .closeConn] ∧ Reason f cfg script r.reqs done)
-    | .hang => r.effects = [.dial] ∧ f.handshakeDeadline = false
+      (cfg.listens = true ∧ EffFail f r.effects ∧ Reason f cfg script r.reqs done)
+    | .hang => EffHang f r.effects ∧ f.handshakeDeadline = false
     | .panic => r.effects = [.dial] ∧ f.openRecovers = false ∧
         (f.formatGuard = false ∨ f.setupUrlSafe = false)
 
@@ -569,9 +580,36 @@ theorem inv_finish {f : Facts} {cfg : Cfg} {script : List Resp} {c : Client} {q 
   cases st with
   | ok c' => exact absurd rfl (hnot c')
   | fail =>
-    exact ⟨h2, hlen, done, h1, hp, Or.inr ⟨hl, rfl, Or.inr (Or.inl (h5 hnot))⟩⟩
+    exact ⟨h2, hlen, done, h1, hp, Or.inr ⟨hl, Or.inl rfl, Or.inr (Or.inl (h5 hnot))⟩⟩
   | hang =>
-    exact ⟨h2, hlen, done, h1, hp, rfl, h6 rfl⟩
+    exact ⟨h2, hlen, done, h1, hp, Or.inl rfl, h6 rfl⟩
+
+theorem inv_finish_early {f : Facts} {cfg : Cfg} {script : List Resp} {c : Client} {q : List Req}
+    {done : List Method} {m : Method} {s s' : List Resp} {st : Step} {q' : List Req}
+    (hl : cfg.listens = true) (hearly : f.streamAfterPlay = false)
+    (hS : St cfg.hasUser script c q done) (hs : s = script.drop q.length)
+    (hr : requestWithResponse f cfg.hasUser c m s = (st, q', s'))
+    (hnot : ∀ c', st ≠ .ok c') (hpre : isPrefix (done ++ [m]) (needed cfg) = true) :
+    OpenInv f cfg script (finishEarlyStream st (q ++ q') s') := by
+  obtain ⟨h1, h2, h3, _, h5, h6⟩ := st_step hS hs hr
+  have hlen : (q ++ q').length ≤ 3 * (3 + tracksOf cfg.sdp) := by
+    have := isPrefix_length hpre
+    rw [needed_length] at this
+    simp only [List.length_append, List.length_cons, List.length_nil] at this h3 ⊢
+    omega
+  have hdone : okList st m = [] := by
+    cases st with
+    | ok c' => exact absurd rfl (hnot c')
+    | fail => rfl
+    | hang => rfl
+  rw [hdone, List.append_nil] at h1
+  have hp := isPrefix_append_left hpre
+  cases st with
+  | ok c' => exact absurd rfl (hnot c')
+  | fail =>
+    exact ⟨h2, hlen, done, h1, hp, Or.inr ⟨hl, Or.inr ⟨hearly, rfl⟩, Or.inr (Or.inl (h5 hnot))⟩⟩
+  | hang =>
+    exact ⟨h2, hlen, done, h1, hp, Or.inr ⟨hearly, rfl⟩, h6 rfl⟩
 
 theorem st_len {cfg : Cfg} {u : Bool} {script : List Resp} {c : Client} {q : List Req}
     {done : List Method} (hS : St u script c q done) (hp : isPrefix done (needed cfg) = true) :
@@ -588,7 +626,7 @@ theorem inv_fail {f : Facts} {cfg : Cfg} {script : List Resp} {c : Client} {q : 
     (hp : isPrefix done (needed cfg) = true)
     (hreason : Reason f cfg script q done) :
     OpenInv f cfg script (finish f .fail q s) :=
-  ⟨hs, st_len hS hp, done, hS.tr, hp, Or.inr ⟨hl, rfl, hreason⟩⟩
+  ⟨hs, st_len hS hp, done, hS.tr, hp, Or.inr ⟨hl, Or.inl rfl, hreason⟩⟩
 
 theorem inv_panic {f : Facts} {cfg : Cfg} {script : List Resp} {c : Client} {q : List Req}
     {done : List Method} {s : List Resp}
@@ -601,17 +639,17 @@ theorem inv_panic {f : Facts} {cfg : Cfg} {script : List Resp} {c : Client} {q :
   unfold panicResult
   cases hrec : f.openRecovers
   · exact ⟨hs, st_len hS hp, done, hS.tr, hp, rfl, hrec, hwhy⟩
-  · exact ⟨hs, st_len hS hp, done, hS.tr, hp, Or.inr ⟨hl, rfl, hreason⟩⟩
+  · exact ⟨hs, st_len hS hp, done, hS.tr, hp, Or.inr ⟨hl, Or.inl rfl, hreason⟩⟩
 
 theorem setup_stage {f : Facts} {cfg : Cfg} {script : List Resp} {c : Client} {q : List Req}
-    {done : List Method} {s : List Resp} (w ab : Bool)
+    {done : List Method} {s : List Resp} (w ab aud : Bool)
     (hS : St cfg.hasUser script c q done) (hs : s = script.drop q.length) :
-    (setupStep f cfg w ab c s = .error () ∧ f.setupUrlSafe = false) ∨
-    (∃ c' q' s', setupStep f cfg w ab c s = .ok (.ok c', q', s') ∧
-      St cfg.hasUser script c' (q ++ q') (done ++ List.replicate (if w then 1 else 0) .setup) ∧
+    (setupStep f cfg w ab aud c s = .error () ∧ f.setupUrlSafe = false) ∨
+    (∃ c' q' s', setupStep f cfg w ab aud c s = .ok (.ok c', q', s') ∧
+      St cfg.hasUser script c' (q ++ q') (done ++ (if w then [.setup aud] else [])) ∧
       s' = script.drop (q ++ q').length) ∨
-    (∃ st q' s', setupStep f cfg w ab c s = .ok (st, q', s') ∧ (∀ c', st ≠ .ok c') ∧ w = true ∧
-      requestWithResponse f cfg.hasUser c .setup s = (st, q', s')) := by
+    (∃ st q' s', setupStep f cfg w ab aud c s = .ok (st, q', s') ∧ (∀ c', st ≠ .ok c') ∧ w = true ∧
+      requestWithResponse f cfg.hasUser c (.setup aud) s = (st, q', s')) := by
   unfold setupStep
   cases w
   · right; left
@@ -623,7 +661,7 @@ theorem setup_stage {f : Facts} {cfg : Cfg} {script : List Resp} {c : Client} {q
       exact hcond.2
     · right
       simp only [Bool.not_true, Bool.false_eq_true, if_false, hcond]
-      rcases hr : requestWithResponse f cfg.hasUser c .setup s with ⟨st, q', s'⟩
+      rcases hr : requestWithResponse f cfg.hasUser c (.setup aud) s with ⟨st, q', s'⟩
       obtain ⟨_, h2, _, h4, _, _⟩ := st_step hS hs hr
       cases st with
       | ok c' => left; exact ⟨c', q', s', rfl, by simpa using h4 c' rfl, h2⟩
@@ -672,33 +710,39 @@ theorem openPull_inv (f : Facts) (cfg : Cfg) (script : List Resp) :
           · exact inv_fail hl S2 hs2 hp1 hre
         | tracks v a ab =>
           dsimp only
-          rcases setup_stage (f := f) v ab S2 hs2 with ⟨hx, hsafe⟩ | ⟨c2, q2, s2, hx, S3, hs3⟩ |
+          rcases setup_stage (f := f) v ab false S2 hs2 with ⟨hx, hsafe⟩ | ⟨c2, q2, s2, hx, S3, hs3⟩ |
               ⟨st2, q2, s2, hx, hnot, hw, hr2⟩
           · rw [hx]
             exact inv_panic hl S2 hs2 hp1 (Or.inr (Or.inr hsafe)) (Or.inr hsafe)
           · rw [hx]; dsimp only
             have hp2 : isPrefix ([Method.options] ++ [Method.describe] ++
-                List.replicate (if v = true then 1 else 0) Method.setup) (needed cfg) = true := by
-              cases v <;> cases a <;> simp [needed, hsdp, tracksOf, isPrefix]
-            rcases setup_stage (f := f) a ab S3 hs3 with ⟨hy, hsafe⟩ | ⟨c3, q3, s3, hy, S4, hs4⟩ |
+                (if v = true then [Method.setup false] else [])) (needed cfg) = true := by
+              cases v <;> cases a <;> simp [needed, setupsOf, hsdp, tracksOf, isPrefix]
+            rcases setup_stage (f := f) a ab true S3 hs3 with ⟨hy, hsafe⟩ | ⟨c3, q3, s3, hy, S4, hs4⟩ |
                 ⟨st3, q3, s3, hy, hnot, hw, hr3⟩
             · rw [hy]
               exact inv_panic hl S3 hs3 hp2 (Or.inr (Or.inr hsafe)) (Or.inr hsafe)
             · rw [hy]; dsimp only
               have hnd : [Method.options] ++ [Method.describe] ++
-                  List.replicate (if v = true then 1 else 0) Method.setup ++
-                  List.replicate (if a = true then 1 else 0) Method.setup ++ [Method.play] =
+                  (if v = true then [Method.setup false] else []) ++
+                  (if a = true then [Method.setup true] else []) ++ [Method.play] =
                   needed cfg := by
-                cases v <;> cases a <;> simp [needed, hsdp, tracksOf]
+                cases v <;> cases a <;> simp [needed, setupsOf, hsdp, tracksOf]
               rcases hr4 : requestWithResponse f cfg.hasUser c3 .play s3 with ⟨st4, q4, s4⟩
               have hp4 : isPrefix ([Method.options] ++ [Method.describe] ++
-                  List.replicate (if v = true then 1 else 0) Method.setup ++
-                  List.replicate (if a = true then 1 else 0) Method.setup ++ [Method.play])
+                  (if v = true then [Method.setup false] else []) ++
+                  (if a = true then [Method.setup true] else []) ++ [Method.play])
                   (needed cfg) = true := by rw [hnd]; exact isPrefix_refl _
               obtain ⟨_, hs5, _, hS5, _, _⟩ := st_step S4 hs4 hr4
               cases st4 with
-              | fail => exact inv_finish hl S4 hs4 hr4 (by simp) hp4
-              | hang => exact inv_finish hl S4 hs4 hr4 (by simp) hp4
+              | fail =>
+                cases hearly : f.streamAfterPlay
+                · simpa [hearly] using inv_finish_early hl hearly S4 hs4 hr4 (by simp) hp4
+                · simpa [hearly] using inv_finish hl S4 hs4 hr4 (by simp) hp4
+              | hang =>
+                cases hearly : f.streamAfterPlay
+                · simpa [hearly] using inv_finish_early hl hearly S4 hs4 hr4 (by simp) hp4
+                · simpa [hearly] using inv_finish hl S4 hs4 hr4 (by simp) hp4
               | ok c4 =>
                 dsimp only
                 have S5 := hS5 c4 rfl
@@ -707,19 +751,19 @@ theorem openPull_inv (f : Facts) (cfg : Cfg) (script : List Resp) :
                   rfl, rfl, hl⟩
             · rw [hy]
               have hp3 : isPrefix ([Method.options] ++ [Method.describe] ++
-                  List.replicate (if v = true then 1 else 0) Method.setup ++ [Method.setup])
+                  (if v = true then [Method.setup false] else []) ++ [Method.setup true])
                   (needed cfg) = true := by
                 subst hw
-                cases v <;> simp [needed, hsdp, tracksOf, isPrefix]
+                cases v <;> simp [needed, setupsOf, hsdp, tracksOf, isPrefix]
               cases st3 with
               | ok c => exact absurd rfl (hnot c)
               | fail => exact inv_finish hl S3 hs3 hr3 (by simp) hp3
               | hang => exact inv_finish hl S3 hs3 hr3 (by simp) hp3
           · rw [hx]
-            have hp2 : isPrefix ([Method.options] ++ [Method.describe] ++ [Method.setup])
+            have hp2 : isPrefix ([Method.options] ++ [Method.describe] ++ [Method.setup false])
                 (needed cfg) = true := by
               subst hw
-              cases a <;> simp [needed, hsdp, tracksOf, isPrefix]
+              cases a <;> simp [needed, setupsOf, hsdp, tracksOf, isPrefix]
             cases st2 with
             | ok c => exact absurd rfl (hnot c)
             | fail => exact inv_finish hl S2 hs2 hr2 (by simp) hp2
@@ -832,7 +876,7 @@ theorem openPull_good_outcome (cfg : Cfg) (script : List Resp) :
 
 theorem openPull_notFound_effects (f : Facts) (cfg : Cfg) (script : List Resp)
     (ho : (openPull f cfg script).outcome = .notFound) :
-    (cfg.listens = true ∧ (openPull f cfg script).effects = [.dial, .closeConn]) ∨
+    (cfg.listens = true ∧ EffFail f (openPull f cfg script).effects) ∨
     (cfg.listens = false ∧ (openPull f cfg script).effects = [] ∧
       (openPull f cfg script).reqs = []) := by
   obtain ⟨_, _, done, _, _, h⟩ := openPull_inv f cfg script
@@ -850,7 +894,7 @@ theorem openPull_stream_effects (f : Facts) (cfg : Cfg) (script : List Resp)
 
 theorem openPull_hang_effects (f : Facts) (cfg : Cfg) (script : List Resp)
     (ho : (openPull f cfg script).outcome = .hang) :
-    (openPull f cfg script).effects = [.dial] ∧ f.handshakeDeadline = false := by
+    EffHang f (openPull f cfg script).effects ∧ f.handshakeDeadline = false := by
   obtain ⟨_, _, done, _, _, h⟩ := openPull_inv f cfg script
   rw [ho] at h
   exact h
@@ -896,28 +940,40 @@ theorem openPull_challengeAnswered (f : Facts) (cfg : Cfg) (script : List Resp) 
 
 /-! ## P6 — the model with the good facts satisfies the specification: failed opens -/
 
-/-- what the harness observes of an `Open` that did not produce a stream -/
-def obsOfFail (r : OpenResult) : Obs :=
-  { out := r.outcome, dialled := r.effects.contains .dial, reqs := r.reqs.map seen,
-    closed := r.effects.contains .closeConn, reg := false, sent := 0, delivered := 0,
-    clean := true, cclosed := false, regAfter := false, cseqOk := true, leak := false }
+/-- the world after Open, starting from nothing -/
+def worldAfterOpen (r : OpenResult) : World := r.effects.foldl applyOpen World.init
+
+/-- what the harness observes of an `Open` that did not produce a stream: everything but `cclosed` /
+    `cseqOk` is computed from the model's requests and effects (the world they leave), and `afresh` from
+    a second request made in that world -/
+def obsOfFail (f : Facts) (cfg : Cfg) (script : List Resp) : Obs :=
+  let r := openPull f cfg script
+  let w := worldAfterOpen r
+  let again := getOrCreate f cfg script [] w
+  { out := r.outcome, dialled := decide (w.dials ≠ 0), reqs := r.reqs.map seen,
+    closed := r.effects.contains .closeConn, reg := w.registered, sent := 0, delivered := 0,
+    clean := !w.registered && decide (w.conns = 0), cclosed := false, regAfter := w.registered,
+    cseqOk := true, leak := decide (w.counter ≠ 0 ∨ w.streams ≠ 0),
+    afresh := decide (again.2 = r.outcome ∧ again.1.dials = w.dials + (if cfg.listens then 1 else 0)) }
 
 /-- the client gives up only with a reason (needs only the `setupUrlSafe` fact) -/
 theorem openPull_hasReason (f : Facts) (cfg : Cfg) (script : List Resp)
     (hsafe : f.setupUrlSafe = true) (ho : (openPull f cfg script).outcome = .notFound) :
-    hasReason cfg script (obsOfFail (openPull f cfg script)) = true := by
+    hasReason cfg script (obsOfFail f cfg script) = true := by
+  have hreqs : (obsOfFail f cfg script).reqs = (openPull f cfg script).reqs.map seen := rfl
   obtain ⟨_, _, done, htr, _, h⟩ := openPull_inv f cfg script
   rw [ho] at h
-  generalize openPull f cfg script = r at *
   unfold hasReason
+  rw [hreqs]
+  generalize openPull f cfg script = r at *
   rcases h with ⟨hl, _, _⟩ | ⟨hl, _, hre⟩
   · simp [hl]
   · rcases hre with ⟨hun, hd⟩ | ⟨hne, hlast⟩ | hs
     · have : succeeded script (r.reqs.map seen) = [.options, .describe] := by
         rw [succeeded_eq, htr.succ, hd]
-      simp only [obsOfFail, this]
+      simp only [this]
       cases hsdp : cfg.sdp <;> simp [hsdp, unusable] at hun ⊢
-    · simp only [obsOfFail, List.length_map]
+    · simp only [List.length_map]
       cases hn : r.reqs.length with
       | zero => exact absurd (List.length_eq_zero_iff.mp hn) hne
       | succ n =>
@@ -926,28 +982,58 @@ theorem openPull_hasReason (f : Facts) (cfg : Cfg) (script : List Resp)
         simp [hlast]
     · rw [hsafe] at hs; cases hs
 
+theorem seen_not_misaddressed (l : List Req) : (l.map seen).any (·.misaddressed) = false := by
+  induction l with
+  | nil => rfl
+  | cons a l ih => simp [seen] at ih ⊢
+
+/-- in a world where nothing is registered, a request whose Open fails leaves what Open's effects leave -/
+theorem getOrCreate_fail {f : Facts} {cfg : Cfg} {script : List Resp} (evs : List PlayEv) {w : World}
+    (hw : w.registered = false) (ho : (openPull f cfg script).outcome = .notFound) :
+    getOrCreate f cfg script evs w = ((openPull f cfg script).effects.foldl applyOpen w, .notFound) := by
+  unfold getOrCreate
+  simp [hw, ho]
+
 theorem verdict_fail (f : Facts) (cfg : Cfg) (script : List Resp)
-    (hsafe : f.setupUrlSafe = true) (ho : (openPull f cfg script).outcome = .notFound) :
-    verdict cfg script (obsOfFail (openPull f cfg script)) = "ok" := by
+    (hsafe : f.setupUrlSafe = true) (hsap : f.streamAfterPlay = true)
+    (ho : (openPull f cfg script).outcome = .notFound) :
+    verdict cfg script (obsOfFail f cfg script) = "ok" := by
   have h1 := openPull_credsOk f cfg script
   have h2 := openPull_challengeAnswered f cfg script
   have h3 := openPull_prefix f cfg script
   have h4 := openPull_hasReason f cfg script hsafe ho
   have h5 := openPull_notFound_effects f cfg script ho
-  generalize openPull f cfg script = r at *
-  have e1 : (obsOfFail r).reqs = r.reqs.map seen := rfl
-  have e2 : (obsOfFail r).out = .notFound := ho
-  have e3 : ((obsOfFail r).dialled && !(obsOfFail r).closed) = false := by
-    rcases h5 with ⟨_, h⟩ | ⟨_, h, _⟩ <;> simp [obsOfFail, h]
+  have e1 : (obsOfFail f cfg script).reqs = (openPull f cfg script).reqs.map seen := rfl
+  have e2 : (obsOfFail f cfg script).out = .notFound := ho
+  have hrest : (obsOfFail f cfg script).leak = false ∧ (obsOfFail f cfg script).afresh = true ∧
+      ((obsOfFail f cfg script).dialled && !(obsOfFail f cfg script).closed) = false ∧
+      (obsOfFail f cfg script).reg = false ∧ (obsOfFail f cfg script).regAfter = false ∧
+      (obsOfFail f cfg script).cseqOk = true := by
+    rcases h5 with ⟨hl, heff⟩ | ⟨hl, heff, _⟩
+    · have heff' : (openPull f cfg script).effects = [.dial, .closeConn] := by
+        rcases heff with h | ⟨h, _⟩
+        · exact h
+        · rw [hsap] at h; cases h
+      have hw0 : worldAfterOpen (openPull f cfg script) = ⟨0, false, 0, 0, 1⟩ := by
+        simp [worldAfterOpen, heff', applyOpen, World.init]
+      have hg := getOrCreate_fail (f := f) (cfg := cfg) (script := script) [] (w := ⟨0, false, 0, 0, 1⟩) rfl ho
+      simp only [heff', List.foldl_cons, List.foldl_nil, applyOpen] at hg
+      simp [obsOfFail, hw0, hg, heff', ho, hl]
+    · have hw0 : worldAfterOpen (openPull f cfg script) = ⟨0, false, 0, 0, 0⟩ := by
+        simp [worldAfterOpen, heff, World.init]
+      have hg := getOrCreate_fail (f := f) (cfg := cfg) (script := script) [] (w := ⟨0, false, 0, 0, 0⟩) rfl ho
+      simp only [heff, List.foldl_nil] at hg
+      simp [obsOfFail, hw0, hg, heff, ho, hl]
+  obtain ⟨r1, r2, r3, r4, r5, r6⟩ := hrest
   unfold verdict
-  rw [e3, h4, e1, h1, h2, h3, e2]
-  simp [obsOfFail]
+  rw [e2, r1, r6, e1, seen_not_misaddressed, h1, h2, h3, r3, r4, r5, h4, r2]
+  simp
 
 /-- P6 (failure): with the good facts every failed open is acceptable to the specification -/
 theorem verdict_fail_good (cfg : Cfg) (script : List Resp)
     (ho : (openPull good cfg script).outcome = .notFound) :
-    verdict cfg script (obsOfFail (openPull good cfg script)) = "ok" :=
-  verdict_fail good cfg script rfl ho
+    verdict cfg script (obsOfFail good cfg script) = "ok" :=
+  verdict_fail good cfg script rfl rfl ho
 
 /-! ## P7 — the play phase -/
 
@@ -1087,65 +1173,135 @@ theorem playStream_once {evs : List PlayEv} {eff : List PlayEffect}
 
 /-! ## P6 — the model satisfies the specification: successful opens followed by the play phase -/
 
+theorem foldl_applyPlay_mid {mid : List PlayEffect} (hmid : ∀ e ∈ mid, e = .deliver ∨ e = .keepAlive)
+    (w : World) : mid.foldl applyPlay w = w := by
+  induction mid generalizing w with
+  | nil => rfl
+  | cons e mid ih =>
+    have he := hmid e (by simp)
+    have ih' := ih (fun x hx => hmid x (by simp [hx]))
+    rcases he with rfl | rfl <;> simpa [applyPlay] using ih' w
+
+/-- the play phase as a whole: registered … unregistered, counted … released, connection closed, the
+    stream (built by Open) closed by Unregist — the world is left as it was before the pull, but for
+    the number of dials -/
+theorem playStream_world {evs : List PlayEv} {eff : List PlayEffect} (h : playStream evs = some eff)
+    (w : World) :
+    eff.foldl applyPlay w =
+      { w with registered := false, conns := w.conns - 1, streams := w.streams - 1 } := by
+  obtain ⟨mid, rfl, hmid, _⟩ := playStream_some h
+  simp only [List.foldl_append, List.foldl_cons, List.foldl_nil, applyPlay]
+  rw [foldl_applyPlay_mid hmid]
+  simp
+
+/-- the world after a successful Open and a play phase that ended -/
+def worldAfterPlay (r : OpenResult) (eff : List PlayEffect) : World := eff.foldl applyPlay (worldAfterOpen r)
+
 /-- what the harness observes of a successful `Open` whose play goroutine saw the events `evs`
-    and had the effects `eff`.  (`cclosed`, `regAfter`, `cseqOk` are not modelled.) -/
-def obsOfPlay (r : OpenResult) (evs : List PlayEv) (eff : List PlayEffect) : Obs :=
-  { out := r.outcome, dialled := r.effects.contains .dial, reqs := r.reqs.map seen,
+    and had the effects `eff`: registration, connection, counters and leaks are read off the world the
+    model's effects leave; `afresh` from a second request made in that world.  (`cclosed`: media.Unregist
+    closes the stream and with it its consumers — C05 / C03; `cseqOk` is not modelled.) -/
+def obsOfPlay (f : Facts) (cfg : Cfg) (script : List Resp) (evs : List PlayEv) (eff : List PlayEffect) : Obs :=
+  let r := openPull f cfg script
+  let w := worldAfterPlay r eff
+  let again := getOrCreate f cfg script evs w
+  { out := r.outcome, dialled := decide (w.dials ≠ 0), reqs := r.reqs.map seen,
     closed := eff.contains .closeConn, reg := eff.contains .regist,
     sent := packetsBefore evs, delivered := (eff.filter (· = .deliver)).length,
-    clean := eff.contains .unregist, cclosed := true, regAfter := false, cseqOk := true,
-    leak := eff.count .connAdd != eff.count .connRelease }
+    clean := !w.registered && decide (w.conns = 0), cclosed := eff.contains .unregist,
+    regAfter := w.registered, cseqOk := true,
+    leak := decide (w.counter ≠ 0 ∨ w.streams ≠ 0),
+    afresh := decide (again.2 = .stream ∧ again.1.dials = w.dials + 1) }
 
 /-- P6 (success): whatever the facts, a successful open followed by a play phase that ends is
     acceptable to the specification -/
 theorem verdict_play (f : Facts) (cfg : Cfg) (script : List Resp) (evs : List PlayEv)
     (eff : List PlayEffect) (ho : (openPull f cfg script).outcome = .stream)
     (hp : playStream evs = some eff) :
-    verdict cfg script (obsOfPlay (openPull f cfg script) evs eff) = "ok" := by
+    verdict cfg script (obsOfPlay f cfg script evs eff) = "ok" := by
   have h1 := openPull_credsOk f cfg script
   have h2 := openPull_challengeAnswered f cfg script
   have h3 := openPull_stream_complete f cfg script ho
   obtain ⟨c1, c2, c3, c4, c5, c6⟩ := playStream_once hp
-  generalize openPull f cfg script = r at *
+  have heff := (openPull_stream_effects f cfg script ho).1
   have m : ∀ x : PlayEffect, eff.count x = 1 → eff.contains x = true := by
     intro x hx
     rw [List.contains_iff_mem]
     exact List.count_pos_iff.mp (by omega)
-  have e1 : (obsOfPlay r evs eff).reqs = r.reqs.map seen := rfl
-  have e2 : (obsOfPlay r evs eff).out = .stream := ho
-  have e3 : (obsOfPlay r evs eff).leak = false := by simp [obsOfPlay, c2, c3]
-  have e4 : (obsOfPlay r evs eff).reg = true := m _ c1
-  have e5 : (obsOfPlay r evs eff).closed = true := m _ c5
-  have e6 : (obsOfPlay r evs eff).clean = true := m _ c4
-  have e7 : (obsOfPlay r evs eff).delivered = (obsOfPlay r evs eff).sent := c6
+  have hw : worldAfterPlay (openPull f cfg script) eff = ⟨0, false, 0, 0, 1⟩ := by
+    simp [worldAfterPlay, worldAfterOpen, heff, applyOpen, World.init, playStream_world hp]
+  have hagain : getOrCreate f cfg script evs ⟨0, false, 0, 0, 1⟩ = (⟨0, false, 0, 0, 2⟩, .stream) := by
+    unfold getOrCreate
+    simp [ho, hp, heff, applyOpen, playStream_world hp]
+  have e1 : (obsOfPlay f cfg script evs eff).reqs = (openPull f cfg script).reqs.map seen := rfl
+  have e2 : (obsOfPlay f cfg script evs eff).out = .stream := ho
+  have e3 : (obsOfPlay f cfg script evs eff).leak = false := by simp [obsOfPlay, hw]
+  have e4 : (obsOfPlay f cfg script evs eff).reg = true := m _ c1
+  have e5 : (obsOfPlay f cfg script evs eff).closed = true := m _ c5
+  have e6 : (obsOfPlay f cfg script evs eff).clean = true := by simp [obsOfPlay, hw]
+  have e7 : (obsOfPlay f cfg script evs eff).delivered = (obsOfPlay f cfg script evs eff).sent := c6
+  have e8 : (obsOfPlay f cfg script evs eff).cclosed = true := m _ c4
+  have e9 : (obsOfPlay f cfg script evs eff).regAfter = false := by simp [obsOfPlay, hw]
+  have e10 : (obsOfPlay f cfg script evs eff).afresh = true := by simp [obsOfPlay, hw, hagain]
+  have e11 : (obsOfPlay f cfg script evs eff).cseqOk = true := rfl
   unfold verdict
-  rw [e1, h1, h2, h3, e2, e3, e4, e5, e6, e7]
-  simp [obsOfPlay]
+  rw [e2, e3, e11, e1, seen_not_misaddressed, h1, h2, h3, e4, e7, e5, e8, e9, e6, e10]
+  simp
 
 theorem verdict_play_good (cfg : Cfg) (script : List Resp) (evs : List PlayEv)
     (eff : List PlayEffect) (ho : (openPull good cfg script).outcome = .stream)
     (hp : playStream evs = some eff) :
-    verdict cfg script (obsOfPlay (openPull good cfg script) evs eff) = "ok" :=
+    verdict cfg script (obsOfPlay good cfg script evs eff) = "ok" :=
   verdict_play good cfg script evs eff ho hp
 
 /-- the combined statement: with the good facts, the requester always gets an answer, and what
     the camera and the harness observed is acceptable to the specification -/
 theorem good_satisfies_spec (cfg : Cfg) (script : List Resp) :
     ((openPull good cfg script).outcome = .notFound ∧
-      verdict cfg script (obsOfFail (openPull good cfg script)) = "ok") ∨
+      verdict cfg script (obsOfFail good cfg script) = "ok") ∨
     ((openPull good cfg script).outcome = .stream ∧
       ∀ evs eff, playStream evs = some eff →
-        verdict cfg script (obsOfPlay (openPull good cfg script) evs eff) = "ok") := by
+        verdict cfg script (obsOfPlay good cfg script evs eff) = "ok") := by
   rcases openPull_good_outcome cfg script with h | h
   · exact Or.inr ⟨h, fun evs eff hp => verdict_play_good cfg script evs eff h hp⟩
   · exact Or.inl ⟨h, verdict_fail_good cfg script h⟩
 
+/-! ## P9 — a pull that has ended leaves the world as it was: a later request pulls afresh -/
+
+/-- For every world in which nothing is registered under the path, every camera script and every play
+    phase that ends: the request ends with the same world but for one more dial (none if nobody
+    listens) — nothing registered, no connection, counter and stream count as before — and its outcome
+    is the outcome of Open, which is a function of the configuration and the script alone. -/
+theorem getOrCreate_ended (cfg : Cfg) (script : List Resp) (evs : List PlayEv) (w : World)
+    (hw : w.registered = false) (hend : (playStream evs).isSome = true) :
+    getOrCreate good cfg script evs w =
+      ({ w with dials := w.dials + (if cfg.listens then 1 else 0) }, (openPull good cfg script).outcome) := by
+  obtain ⟨eff, hp⟩ := Option.isSome_iff_exists.mp hend
+  rcases w with ⟨conns, registered, counter, streams, dials⟩
+  simp only at hw
+  subst hw
+  rcases openPull_good_outcome cfg script with ho | ho
+  · obtain ⟨heff, hl⟩ := openPull_stream_effects good cfg script ho
+    unfold getOrCreate
+    simp only [ho, hp, heff, hl, List.foldl_cons, List.foldl_nil, applyOpen, playStream_world hp]
+    simp
+  · rcases openPull_notFound_effects good cfg script ho with ⟨hl, heff⟩ | ⟨hl, heff, _⟩
+    · have heff' : (openPull good cfg script).effects = [.dial, .closeConn] := by
+        rcases heff with h | ⟨h, _⟩
+        · exact h
+        · cases h
+      unfold getOrCreate
+      simp only [ho, heff', hl, List.foldl_cons, List.foldl_nil, applyOpen]
+      simp
+    · unfold getOrCreate
+      simp [ho, heff, hl]
+
 /-! ## P8 — why the facts are needed -/
 
+def cfgVA : Cfg := { hasUser := false, listens := true, urlPath := true, sdp := .tracks true true false }
+
 theorem hang_witness :
-    openPull { good with handshakeDeadline := false }
-      { hasUser := false, listens := true, urlPath := true, sdp := .tracks true true false }
-      [.silence] =
+    openPull { good with handshakeDeadline := false } cfgVA [.silence] =
       { outcome := .hang, reqs := [⟨.options, .none, false, none⟩], effects := [.dial], rest := [] } := by
   decide
 
@@ -1163,24 +1319,38 @@ theorem setupUrl_witness :
     let cfg : Cfg := { hasUser := false, listens := true, urlPath := false, sdp := .tracks true false false }
     let r := openPull { good with setupUrlSafe := false } cfg []
     r.outcome = .notFound ∧ r.effects = [.dial, .closeConn] ∧
-      hasReason cfg [] (obsOfFail r) = false := by
+      hasReason cfg [] (obsOfFail { good with setupUrlSafe := false } cfg []) = false := by
   decide
 
-/-- the specification rejects the three defective behaviours above -/
+/-- when the stream is built before PLAY is sent (`streamAfterPlay = false`) a camera that refuses PLAY
+    after a complete DESCRIBE / SETUP leaves a stream behind: the requester gets not-found and the
+    connection is closed, but the stream's workers stay -/
+theorem earlyStream_witness :
+    let f : Facts := { good with streamAfterPlay := false }
+    let script : List Resp := [.status 200 .other .none, .status 200 .other .none, .status 200 .other .none,
+      .status 200 .other .none, .status 454 .other .none]
+    (openPull f cfgVA script).outcome = .notFound ∧
+    (openPull f cfgVA script).effects = [.dial, .newStream, .closeConn] ∧
+    (worldAfterOpen (openPull f cfgVA script)).streams = 1 ∧
+    (obsOfFail f cfgVA script).leak = true := by
+  decide
+
+/-- the specification rejects the defective behaviours above -/
 theorem defect_verdicts :
-    verdict { hasUser := false, listens := true, urlPath := true, sdp := .tracks true true false }
-      [.silence]
-      (obsOfFail (openPull { good with handshakeDeadline := false }
-        { hasUser := false, listens := true, urlPath := true, sdp := .tracks true true false }
-        [.silence])) = "requester-hangs" ∧
+    verdict cfgVA [.silence] (obsOfFail { good with handshakeDeadline := false } cfgVA [.silence]) = "requester-hangs" ∧
     verdict { hasUser := false, listens := true, urlPath := true, sdp := .noFormat } []
-      (obsOfFail (openPull { good with openRecovers := false, formatGuard := false }
-        { hasUser := false, listens := true, urlPath := true, sdp := .noFormat } [])) =
+      (obsOfFail { good with openRecovers := false, formatGuard := false }
+        { hasUser := false, listens := true, urlPath := true, sdp := .noFormat } []) =
       "panic-reaches-requester" ∧
     verdict { hasUser := false, listens := true, urlPath := false, sdp := .tracks true false false } []
-      (obsOfFail (openPull { good with setupUrlSafe := false }
-        { hasUser := false, listens := true, urlPath := false, sdp := .tracks true false false } [])) =
-      "gave-up-without-reason" := by
-  refine ⟨rfl, rfl, rfl⟩
+      (obsOfFail { good with setupUrlSafe := false }
+        { hasUser := false, listens := true, urlPath := false, sdp := .tracks true false false } []) =
+      "gave-up-without-reason" ∧
+    verdict cfgVA [.status 200 .other .none, .status 200 .other .none, .status 200 .other .none,
+        .status 200 .other .none, .status 454 .other .none]
+      (obsOfFail { good with streamAfterPlay := false } cfgVA
+        [.status 200 .other .none, .status 200 .other .none, .status 200 .other .none,
+         .status 200 .other .none, .status 454 .other .none]) = "connection-or-goroutine-leak" := by
+  refine ⟨rfl, rfl, rfl, rfl⟩
 
 end IpcHub.Pull
